@@ -360,11 +360,12 @@ def _reparse_case(repo, it, S, spec):
                     out.append(("recovered transcript_id", f"{gd}: transcript_id {td.get('transcript_id')!r}; written {m['id']}.t{i}", q))
                 if t["cds"] and td.get("protein_id") != f"{m['id']}.p{i}":
                     out.append(("recovered protein_id", f"{gd}: protein_id {td.get('protein_id')!r}; written {m['id']}.p{i}", q))
-                if t["cds"] and t["f0"] == 0 and len(td.get("cds_frames") or []) == len(t["cds"]):
-                    wfr = [["ZERO", "ONE", "TWO"][x] for x in consistent_frames(t["cds"], m["strand"], 0)]
+                if t["cds"] and len(td.get("cds_frames") or []) == len(t["cds"]):
+                    wfr = [["ZERO", "ONE", "TWO"][x] for x in consistent_frames(t["cds"], m["strand"], t["f0"])]
                     if list(td.get("cds_frames") or []) != wfr:
-                        out.append(("recovered frames", f"{gd}: frames {td.get('cds_frames')}; written {wfr}", q))
-                # (start frames other than 0 are lost because /codon_start is never written: known finding under C12.RK)
+                        key = "recovered frames" if t["f0"] == 0 else "recovered start frame (nonzero start frame)"
+                        out.append((key, f"{gd}: frames {td.get('cds_frames')}; written {wfr}"
+                                    + ("" if t["f0"] == 0 else " (the start frame travels in /codon_start, which the writer never emits)"), q))
     it.hooks.pop(f"{P}:BaseGenBankParser._export_annotation_collections", None)
     if len(answers) == 3:
         n += 1
@@ -408,7 +409,7 @@ def rp_reparse(ctx):
     specs = []
     # single-isoform genes (a GenBank file cannot pair several mRNA / CDS records of one gene; the parser documents that it keeps
     # the first transcript), one strand per file as the property states
-    single_strand_sets = [(0, 1, 3), (2, 5), (0, 1, 3, 6), (1,), (5,), (2,), (3, 6)]
+    single_strand_sets = [(0, 1, 3), (2, 5), (0, 1, 3, 6), (1,), (5,), (2,), (3, 6), (4,), (4, 3)]
     for idxs in single_strand_sets:
         for fl in ("PROKARYOTIC", "EUKARYOTIC"):
             specs.append((idxs, fl))
@@ -497,8 +498,10 @@ def r1_tables(ctx):
 
 
 def r3_qualifier_keys(ctx):
-    """keys the parser reads for the recovered attributes vs keys the writer code can emit"""
+    """keys the parser reads for the recovered attributes vs keys the writer code can emit (strengthening of RP, which decides
+    the recovered attributes by interpretation; never alarms)"""
     r, repo = ctx.r, ctx.repo
+    r.soften("C12.R3")
     it = gene_interp(repo)
     KQ = it.enum("KnownQualifiers")
     parser = repo.module("io.genbank.parser")
@@ -529,6 +532,7 @@ def r3_qualifier_keys(ctx):
 
 def r4_pipelines(ctx):
     r, repo = ctx.r, ctx.repo
+    r.soften("C12.R4")  # strengthening: RP interprets parse() of the three parser classes; the stage order is not an obligation
     stages = {}
     for cname in ("SortedGenBankParser", "LocusTagGenBankParser", "HybridGenBankParser"):
         fn = repo.cls(f"io.genbank.parser:{cname}").methods.get("parse")
